@@ -632,3 +632,37 @@ Proof.
   exists doc_unwrap_args, path_unwrap_args, (Node 8 9 [Node 9 10 [Node 14 11 [Node 107 12 [Node 11 13 []]]]]).
   split; [apply nodupb_NoDup; vm_compute; reflexivity|]. split; [reflexivity|]. vm_compute. discriminate.
 Qed.
+
+(* ---------- the code as it is now (Type2::Unwrap repaired, fx = true): every position is reached ---------- *)
+
+Theorem visit_spec_now : forall t p lp lc,
+  In (Ev p lp lc) (visit true [] t) <->
+  p <> [] /\ exists n q, node_at t p = Some n /\ parent_of t p = Some q /\ label n = lc /\ label q = lp.
+Proof.
+  intros t p lp lc. rewrite visit_spec. split.
+  - intros (H1 & _ & H2). auto.
+  - intros (H1 & n & q & Hn & H2). split; [auto|]. split; [eapply reg_path_fixed; eauto|]. exists n, q. auto.
+Qed.
+
+Theorem query_is_first_registered_now : forall t l,
+  (first_reg true t l = None /\ query_tree true t l = None) \/
+  (exists p' n' q', first_reg true t l = Some p' /\ p' <> [] /\ node_at t p' = Some n' /\
+                    label n' = l /\ parent_of t p' = Some q' /\ query_tree true t l = Some (label q')).
+Proof.
+  intros t l. destruct (query_is_first_registered true t l) as [H|(p' & n' & q' & H1 & H2 & _ & H3)]; [left; exact H|].
+  right. exists p', n', q'. auto.
+Qed.
+
+Theorem collision_iff_now : forall t p n q,
+  node_at t p = Some n -> parent_of t p = Some q ->
+  (query_tree true t (label n) <> Some (label q) <->
+   exists p' n' q', first_reg true t (label n) = Some p' /\ node_at t p' = Some n' /\ label n' = label n /\
+                    parent_of t p' = Some q' /\ label q' <> label q).
+Proof. intros t p n q Hn Hq. apply (collision_iff true t p n q Hn Hq). eapply reg_path_fixed; eauto. Qed.
+
+(* regression witness of the repaired finding: `a = ~b<int>` -- before the repair (fx = false) the GenericArgs
+   node (label 9) had no parent, now it reports the Type2::Unwrap node (label 7) *)
+Theorem unwrap_args_indexed_now :
+  query_tree false doc_unwrap_args 9 = None /\ query_tree true doc_unwrap_args 9 = Some 7 /\
+  option_map label (parent_of doc_unwrap_args path_unwrap_args) = Some 7.
+Proof. vm_compute. repeat split. Qed.
